@@ -4,7 +4,7 @@
     3 = both. *)
 From Coq Require Import Ascii String List ZArith Bool Arith.
 Import ListNotations.
-From TI Require Import model.Query model.QuerySpec.
+From TI Require Import model.Query model.QuerySpec model.QueryInit.
 Open Scope Z_scope.
 
 (** ** equality tests *)
@@ -83,6 +83,9 @@ Record pcase := {
   pc_rounds : list (list byte * list (nat * list byte));     (* request seen, bursts played *)
   pc_obs : obs;
   pc_left : list byte;          (* bytes readable on the terminal after the call *)
+  pc_attr : tattr;              (* INITIAL STATE: the attribute set the terminal is in ... *)
+  pc_q0 : list byte;            (* ... and the unread input in its queue when the call is made *)
+  pc_restored : bool;           (* the attribute set after the call is the one before it *)
   pc_nto_min : Z;               (* elapsed <= nto_min * timeout + slack *)
   pc_nto_max : Z                (* elapsed >= nto_max * timeout *)
 }.
@@ -107,21 +110,31 @@ Definition term_of (rounds : list (list byte * list (nat * list byte))) : termin
 Definition tty0 : tty := {| now := 0; pend := []; tick := 0; written := [] |}.
 Definition unit_cost : nat -> Z := fun _ => 1.
 
-Definition run_model (p : pcase) : obs * tty :=
+(** the model is run from the case's initial state: attribute set [pc_attr], [pc_q0] unread
+    in the queue (model/QueryInit.v; [always_flush] = the code) *)
+Definition run_model (p : pcase) : obs * ttyA :=
   let cfg := pc_cfg p in
   let term := term_of (pc_rounds p) in
+  let s0 := ttyA_init (pc_attr p) (pc_q0 p) in
+  let g := always_flush in
   match pc_op p with
-  | OpFgBg => let (r, st) := get_fg_bg unit_cost cfg term tty0 in (OFgBg r, st)
-  | OpNameVer => let (r, st) := get_name_version unit_cost cfg term tty0 in (ONameVer (fst r) (snd r), st)
-  | OpCell => let '(r, c, st) := get_cell_size unit_cost cfg term (pc_cache p) tty0 in (OCell r c, st)
-  | OpKitty => let (r, w) := kitty_is_supported unit_cost cfg term (tty0, None) in (OBool (Some r), fst w)
-  | OpIterm2 => let (r, w) := iterm2_is_supported unit_cost cfg term (tty0, None) in (OBool r, fst w)
-  | OpAuto => let (r, w) := auto_image_class unit_cost cfg term (tty0, None) in (OStyle r, fst w)
-  | OpRawCsi => let (r, st) := query unit_cost cfg term more_not_csi (pc_raw_request p) tty0 in (ORaw r, st)
-  | OpRawC => let (r, st) := query unit_cost cfg term more_not_c (pc_raw_request p) tty0 in (ORaw r, st)
+  | OpFgBg => let (r, st) := get_fg_bg_A unit_cost cfg term g s0 in (OFgBg r, st)
+  | OpNameVer => let (r, st) := get_name_version_A unit_cost cfg term g s0 in (ONameVer (fst r) (snd r), st)
+  | OpCell => let '(r, c, st) := get_cell_size_A unit_cost cfg term g (pc_cache p) s0 in (OCell r c, st)
+  | OpKitty => let (r, w) := kitty_is_supported_A unit_cost cfg term g (s0, None) in (OBool (Some r), fst w)
+  | OpIterm2 => let (r, w) := iterm2_is_supported_A unit_cost cfg term g (s0, None) in (OBool r, fst w)
+  | OpAuto => let (r, w) := auto_image_class_A unit_cost cfg term g (s0, None) in (OStyle r, fst w)
+  | OpRawCsi => let (r, st) := query_A unit_cost cfg term g more_not_csi (pc_raw_request p) s0 in (ORaw r, st)
+  | OpRawC => let (r, st) := query_A unit_cost cfg term g more_not_c (pc_raw_request p) s0 in (ORaw r, st)
   | OpSession calls =>
-      let (r, w) := session unit_cost cfg term calls (tty0, [], None) in (OSession r, fst (fst w))
+      let (r, w) := session_A unit_cost cfg term g calls (s0, [], None) in (OSession r, fst (fst w))
   end.
+
+(** specification side of "no reply bytes remain unread": when a request was written, the
+    unread input was discarded before it (documented: "Any unread input is discarded before
+    the query") and every reply was consumed, so NOTHING is readable afterwards; when no
+    request was written there are no replies (what was unread before is not the call's) *)
+Definition spec_left_ok (p : pcase) : bool := is_nil (pc_rounds p) || is_nil (pc_left p).
 
 (** the bursts deliver whole replies: every burst is a run of whole units *)
 Fixpoint take_units (us : list (list byte)) (b : list byte) : option (list (list byte)) :=
@@ -175,11 +188,13 @@ Definition spec_obs_eq (e o : obs) : bool :=
   end.
 
 Definition check_pty (p : pcase) : nat :=
-  let (m, st) := run_model p in
+  let (m, sA) := run_model p in
+  let st := core sA in
   let nto := now st / TIMEOUT in
   let ok_model :=
       obs_eq m (pc_obs p) &&
       beq (map snd (pend st)) (pc_left p) &&
+      Bool.eqb (tattr_eqb (attr sA) (pc_attr p)) (pc_restored p) &&
       leq beq (written st) (map fst (pc_rounds p)) &&
       (pc_nto_min p <=? nto) && (nto <=? pc_nto_max p) &&
       match pc_op p with
@@ -192,7 +207,7 @@ Definition check_pty (p : pcase) : nat :=
       match exp_obs p with
       | Some e =>
           if in_hyp then
-            spec_obs_eq e (pc_obs p) && is_nil (pc_left p) &&
+            spec_obs_eq e (pc_obs p) && spec_left_ok p &&
             (pc_nto_min p <=? Z.of_nat (length (pc_rounds p)))
           else true
       | None => true
@@ -213,11 +228,13 @@ Definition bad_pty := bad_of check_pty.
     16 = the case is inside the property's hypothesis and has a specified answer.
     [check_pty p = 0] iff [pty_bits p] has none of the bits 1, 2, 4, 8. *)
 Definition pty_bits (p : pcase) : nat :=
-  let (m, st) := run_model p in
+  let (m, sA) := run_model p in
+  let st := core sA in
   let nto := now st / TIMEOUT in
   let ok_values :=
       obs_eq m (pc_obs p) &&
       beq (map snd (pend st)) (pc_left p) &&
+      Bool.eqb (tattr_eqb (attr sA) (pc_attr p)) (pc_restored p) &&
       leq beq (written st) (map fst (pc_rounds p)) &&
       match pc_op p with
       | OpRawCsi | OpRawC => true
@@ -229,7 +246,7 @@ Definition pty_bits (p : pcase) : nat :=
   let applies := match exp_obs p with Some _ => in_hyp | None => false end in
   let ok_spec_values :=
       match exp_obs p with
-      | Some e => if in_hyp then spec_obs_eq e (pc_obs p) && is_nil (pc_left p) else true
+      | Some e => if in_hyp then spec_obs_eq e (pc_obs p) && spec_left_ok p else true
       | None => true
       end in
   let ok_spec_time :=
@@ -329,6 +346,7 @@ Definition check_fast (f : fcase) : nat :=
   let ok_model := obs_eq m (fc_obs f) && leq beq reqs (fc_requests f) && Nat.eqb drains (fc_drains f) in
   let p := {| pc_op := fc_op f; pc_cfg := fc_cfg f; pc_cache := fc_cache f; pc_profile := fc_profile f;
               pc_raw_request := []; pc_rounds := []; pc_obs := fc_obs f; pc_left := [];
+              pc_attr := cooked; pc_q0 := []; pc_restored := true;
               pc_nto_min := 0; pc_nto_max := 0 |} in
   let ok_spec :=
       match exp_obs p with
@@ -341,6 +359,7 @@ Definition bad_fast := bad_of check_fast.
 Definition fast_bits (f : fcase) : nat :=
   let p := {| pc_op := fc_op f; pc_cfg := fc_cfg f; pc_cache := fc_cache f; pc_profile := fc_profile f;
               pc_raw_request := []; pc_rounds := []; pc_obs := fc_obs f; pc_left := [];
+              pc_attr := cooked; pc_q0 := []; pc_restored := true;
               pc_nto_min := 0; pc_nto_max := 0 |} in
   (check_fast f +
    match exp_obs p with Some _ => if fast_in_hyp f then 16 else 0 | None => 0 end)%nat.
